@@ -203,11 +203,15 @@ stringify(const string &source) {
         break;
 
       case '\'':
-        state ^= S_single_quoted;
+        if ((state & S_double_quoted) == 0) {
+          state ^= S_single_quoted;
+        }
         break;
 
       case '"':
-        state ^= S_double_quoted;
+        if ((state & S_single_quoted) == 0) {
+          state ^= S_double_quoted;
+        }
         result += '\\';
         break;
       }
